@@ -117,10 +117,15 @@ int main(int argc, char** argv)
         }
         const std::vector<std::string> fids = {"sphere", "rosenbrock", "quadratic", "trid", "exponential", "chung-reynolds"};
         const std::vector<int>         Ks   = small ? std::vector<int>{2, 4} : (T ? std::vector<int>{2, 4, 16} : std::vector<int>{2, 4});
+        // line-search configurations: default, and every lsearch0 / lsearchk id (applies to line-search solvers only)
+        const std::vector<std::string> ls0 = lsearch0_t::all().ids();
+        const std::vector<std::string> lsk = lsearchk_t::all().ids();
+        const auto                     nls = 1 + ls0.size() + lsk.size();
         lattice_t lat;
         lat.axis("solver", ids.size(), jarr_str(ids));
         lat.axis("threads", Ks.size(), jarr_num(Ks));
         lat.axis("dims", 2, jstr("2, 5"));
+        lat.axis("line_search", nls, jstr("default | each lsearch0 id | each lsearchk id (line-search solvers only)"));
         lat.describe(r);
         r.axis("functions", jarr_str(fids));
         for_each_case(lat, r, "solvers", [&](const uint64_t index, const std::vector<uint64_t>& d) {
@@ -128,6 +133,21 @@ int main(int argc, char** argv)
             const int   K      = Ks[d[1]];
             const auto  dims   = d[2] == 0 ? 2 : 5;
             auto        solver = solver_t::all().get(id);
+            if (d[3] > 0)
+            {
+                if (solver->type() != solver_type::line_search)
+                {
+                    return;
+                }
+                if (d[3] <= ls0.size())
+                {
+                    solver->lsearch0(ls0[d[3] - 1]);
+                }
+                else
+                {
+                    solver->lsearchk(lsk[d[3] - 1 - ls0.size()]);
+                }
+            }
             solver->parameter("solver::max_evals") = 150;
             solver->parameter("solver::epsilon")   = 1e-8;
             // per-thread function objects and starting points
@@ -169,7 +189,7 @@ int main(int argc, char** argv)
                 const auto& a = solo[static_cast<size_t>(bad)];
                 const auto& b = conc[static_cast<size_t>(bad)];
                 r.violation("shared-solver:" + id, "solvers:" + std::to_string(index),
-                            jobj({{"solver", jstr(id)}, {"threads", jint(K)}, {"dims", jint(dims)}, {"thread", jint(bad)},
+                            jobj({{"solver", jstr(id)}, {"threads", jint(K)}, {"dims", jint(dims)}, {"line_search", jint(d[3])}, {"thread", jint(bad)},
                                   {"solo_fx", jnum(a.fx)}, {"concurrent_fx", jnum(b.fx)}, {"solo_fcalls", jint(a.fcalls)},
                                   {"concurrent_fcalls", jint(b.fcalls)}, {"solo_status", jint(a.status)}, {"concurrent_status", jint(b.status)}}));
             }
